@@ -49,6 +49,8 @@ pub struct GroupScen {
     heights: BTreeSet<u64>,
     /// `cw4groupwide`: 36 addresses (C20)
     wide: bool,
+    /// generator (wide): this trace registers more than 30 hooks
+    hookfill: bool,
 }
 
 fn new_deps() -> Deps {
@@ -147,6 +149,7 @@ impl GroupScen {
             h0: 0,
             heights: BTreeSet::new(),
             wide: false,
+            hookfill: false,
         }
     }
 
@@ -480,6 +483,7 @@ impl Scenario for GroupScen {
             p.iter().map(|a| a.to_string()).collect::<Vec<_>>().join(",")
         );
         self.reset(&header);
+        self.hookfill = self.wide && trace % 4 == 0;
         header
     }
 
@@ -516,6 +520,18 @@ impl Scenario for GroupScen {
             return self.gen_page_query(rng);
         }
         let admin = self.admin();
+        // hook-fill story (wide, every fourth trace): the admin registers hook after hook until there are 33 — every
+        // registered hook hears every change, also the 31st
+        if self.hookfill {
+            if let Some(a) = &admin {
+                let hooks = self.hooks();
+                if hooks.len() < 33 && rng.chance(9, 10) {
+                    if let Some(h) = self.pool.iter().find(|p| !hooks.contains(&p.to_string())) {
+                        return format!("exec {a} add_hook addr=+{h}");
+                    }
+                }
+            }
+        }
         let snd = match &admin {
             Some(a) if rng.chance(6, 7) => Addr::unchecked(a.clone()),
             _ => rng.pick(&self.pool).clone(),
